@@ -1,7 +1,7 @@
 """Checks decided with spec/Eliot.tla + Trace_Eliot.tla (engine 1): C01 C02 C03 C04 C05 C07 C08 C12(sequential) C13."""
 from engine_eliot import *
 
-ALLF = {"typed", "tb", "task", "finish", "ctx", "run", "alog", "succ", "ext", "remote", "logcall", "preserve"}
+ALLF = {"typed", "tb", "task", "finish", "ctx", "run", "alog", "succ", "ext", "remote", "logcall", "preserve", "stdlib"}
 HOST = ALLF | {"hostile"}
 
 # per property: model-checking configs (quick, with thorough overrides), simulation sources, random profiles
